@@ -386,6 +386,16 @@ def check_content_unwraps(facts, res, cg):
                 continue
             cn = callee_name(x)
             owner = (x[4].path or "") + (x[4].self_ty or "")
+            if cn in CONVERSIONS and not (x[2] and all(y[0] == "const" for y in walk(x[2][0]) if y[0] in ("const", "var", "param", "upvar", "call"))):
+                # a fallible text / number conversion of a non-constant value: nothing dominates it that bounds the value
+                n += 1
+                owner_fn = facts.body(m.parent).path if m.kind == "closure" and m.parent and facts.body(m.parent) is not None else m.path
+                res.instance("H7", "%s: %s(..).%s() on a non-constant value" % (m.path, cn, t.callee.name), m.loc(t.line))
+                res.violation("H7", "%s|unchecked-content-unwrap:%s" % (owner_fn, cn),
+                              "%s (reachable from reload / refresh) calls %s() on the result of %s of a value taken from stored content or an item name: "
+                              "a well-hashed item carrying e.g. an out-of-range number aborts the calling thread instead of being skipped or reported" % (
+                                  m.path, t.callee.name, cn), m.loc(t.line))
+                continue
             if "serde_json" not in owner:
                 continue
             if cn not in JSON_CONV and cn != "get":
@@ -419,6 +429,34 @@ def check_content_unwraps(facts, res, cg):
                               "bytes hash to its name but whose JSON has another shape aborts the calling thread instead of being skipped or reported" % (
                                   m.path, t.callee.name, cn), m.loc(t.line))
     res.floor("H7", "unwraps of JSON shape conversions on the reload / refresh paths", n, 3)
+    # H8: identifier indices (u32 counters of Revision / DeltaId, parsed from stored content) are not incremented with an
+    # overflow-checked `+` (a panic in builds with overflow checks, a silent wrap otherwise)
+    res.rule("H8", "no overflow-panicking arithmetic on an identifier index taken from stored content")
+    from ..defuse import inline_calls
+    n8 = 0
+    for mp, m in sorted(members.items()):
+        if is_adapter_impl_or_module(m):
+            continue
+        du = du_of(m)
+        for blk in m.blocks:
+            if blk.cleanup or blk.term.kind != "assert" or "Overflow" not in str(blk.term.j.get("msg", "")):
+                continue
+            for st in blk.stmts:
+                if st.kind == "assign" and st.rv.kind == "binop" and "WithOverflow" in st.rv.j["op"]:
+                    n8 += 1
+                    for o in st.rv.operands():
+                        ot = inline_calls(du.operand_term(o, 12), facts)
+                        idx = [y for y in walk(ot) if (y[0] == "call" and callee_name(y) == "index" and y[4] is not None and
+                                                       (y[4].impl_self or "") in ("revision::Revision", "melda::DeltaId")) or
+                               (y[0] == "field" and y[2] == "index" and len(y) > 3 and y[3] in ("revision::Revision",))]
+                        if idx:
+                            owner_fn = facts.body(m.parent).path if m.kind == "closure" and m.parent and facts.body(m.parent) is not None else m.path
+                            res.violation("H8", "%s|index-arithmetic-can-overflow" % owner_fn,
+                                          "%s (reachable from reload / refresh) computes `%s` on an identifier index with an overflow check that panics: a stored item "
+                                          "naming the index 4294967295 aborts the calling thread (debug) or wraps (release) instead of being rejected" % (
+                                              m.path, st.rv.j["op"].replace("WithOverflow", "")), m.loc(st.line))
+    res.instance("H8", "%d overflow-checked arithmetic sites on the reload / refresh paths inspected" % n8, None)
+    res.floor("H8", "overflow-checked arithmetic sites inspected", n8, 3)
 
 
 def _consts(t):
